@@ -176,7 +176,7 @@ def run(tier):
             seen.add(p.sig)
             uniq.append(p)
     out = common.Outcome(PID)
-    extra = e3_extras.summary(e3_extras.c11_into(out, 3 if tier == "thorough" else 2))
+    extra = e3_extras.summary(e3_extras.safe(e3_extras.c11_into, out, 3 if tier == "thorough" else 2))
     return e1.finish(
         PID, tier, uniq, t0, outcome=out, extra=extra,
         rule="one Kani harness per program (shape x choice of default variant x per-field default-expression kind x type-level value x list form); the values that call / block "
